@@ -52,7 +52,9 @@ OPS_A = ([("step", e, j, o) for e in ("numpy", "SX", "MX") for j in (0, 1) for o
          + [("setparams",)]
          # value set 3: a caller dictionary with an entry for EVERY element that holds only the states (the entries of
          # state-less elements are empty dictionaries); the NumPy engine creates the rest (constant fill)
-         + [("step", "numpy", 3, 0)])
+         + [("step", "numpy", 3, 0)]
+         # a simulation loop that hands the LIVE next_states dictionaries of the links back as their initial conditions
+         + [("feedback", 2)])
 OPS_B = [("step", "numpy", j, o) for j in (0, 1) for o in (0, 1)] + [("feedback", o) for o in (0, 1)] + [("inplace0",)]
 
 
@@ -277,18 +279,24 @@ class Session:
             ic = {el: dict(d) for el, d in self.np_ic[0].items()}
             for (key, var), arr in cur.items():
                 ic[self.built.obj[key]][var] = arr
+            if o == 2:
+                # the links' own next_states dictionaries themselves (not copies) are the inner dictionaries
+                for key, el in self.built.obj.items():
+                    if key.startswith("L") and set(el.next_states) == {"rho", "v"} and set(ic[el]) == {"rho", "v"}:
+                        ic[el] = el.next_states
             self.held.append((cur, {kk: v.copy() for kk, v in cur.items()}))
             self.symbolic_now = False
-            net.step(init_conditions=ic, engine=env.numpy_engine(), **self.P, **(ALLPOS if o else {}))
+            # copies of everything that is supplied, taken BEFORE the step (a live next_states dictionary is the element's own)
+            ic_copy = {el_: {n_: a_.copy() for n_, a_ in d_.items()} for el_, d_ in ic.items()}
+            net.step(init_conditions=ic, engine=env.numpy_engine(), **self.P, **(ALLPOS if o == 1 else {}))
             got = {kk: np.array(v, dtype=float, copy=True) for kk, v in read_next(self.built).items()}
             # the same step from COPIES of those values on a freshly built network
             fresh = build(self.spec, override=array_params(self.spec) if self.family == "B" else None)
             for _ in range(self.n_setparams):
                 edit_params(fresh.obj)
-            fic = {fresh.obj[kk_]: {n_: a_.copy() for n_, a_ in ic[self.built.obj[kk_]].items()} for kk_ in fresh.obj
-                   if self.built.obj[kk_] in ic}
+            fic = {fresh.obj[kk_]: ic_copy[self.built.obj[kk_]] for kk_ in fresh.obj if self.built.obj[kk_] in ic_copy}
             fresh.net.step(init_conditions=fic, engine=env.numpy_engine(), **{k_: (np.array(float(v_)) if self.family == "B" else float(v_))
-                                                                               for k_, v_ in self.P.items()}, **(ALLPOS if o else {}))
+                                                                               for k_, v_ in self.P.items()}, **(ALLPOS if o == 1 else {}))
             ref = {kk: np.array(v, dtype=float, copy=True) for kk, v in read_next(fresh).items()}
             return "np-direct", got, ref
         if k == "tofunP":
